@@ -279,6 +279,14 @@ func prepare(pc0 *propCfg, engineName string) string {
 		}
 		sort.Slice(gs, func(i, j int) bool { return gs[i].t.After(gs[j].t) })
 		for i, g := range gs {
+			// scratch-copy runs (VERIF_REPO) may be long sweeps running side by
+			// side: their generations are evicted by age, not by count
+			if altRepo {
+				if time.Since(g.t) > 4*time.Hour {
+					os.RemoveAll(filepath.Join(root, g.name))
+				}
+				continue
+			}
 			if i >= 1 {
 				os.RemoveAll(filepath.Join(root, g.name))
 			}
